@@ -193,6 +193,8 @@ pub fn check_spawn(ctx: &Ctx, c: &SpawnCase) -> CaseResult {
     let root = std::path::PathBuf::from(format!("/tmp/verif-c13-{}-{}", std::process::id(), ctx.worker));
     let _ = std::fs::remove_dir_all(&root);
     std::fs::create_dir_all(root.join("cwd")).unwrap();
+    // the helper under a name that exists only in the configured working directory
+    let _ = std::os::unix::fs::symlink(helper_path(), root.join("cwd").join("helper-in-cwd"));
     std::fs::write(root.join("notexec"), b"#!/bin/false\n").unwrap();
     let res = run_case(c, &root, &mut rep);
     sc::verif::clear_plan();
@@ -207,7 +209,12 @@ pub fn check_spawn(ctx: &Ctx, c: &SpawnCase) -> CaseResult {
 fn run_case(c: &SpawnCase, root: &std::path::Path, rep: &mut CaseReport) -> Result<(), Failure> {
     let dump_path = root.join("dump.json");
     let helper = helper_path();
+    // a program named relative to the configured working directory ("./name" exists there and nowhere else): the
+    // path is the child's to resolve, after its chdir (a third of the cases that configure a directory)
+    let relative_prog = c.prog == 0 && c.cwd == 1 && c.exit_code % 3 == 1;
+    rep.class_if(relative_prog, "program-path-relative-to-the-configured-cwd");
     let bin_bytes: Vec<u8> = match c.prog {
+        0 if relative_prog => b"./helper-in-cwd".to_vec(),
         0 => helper.as_os_str().as_bytes().to_vec(),
         1 => root.join("no-such-binary").as_os_str().as_bytes().to_vec(),
         _ => root.join("notexec").as_os_str().as_bytes().to_vec(),
